@@ -68,7 +68,7 @@ class Run:
         self.R = R
         repo = Repo()
         self.repo = repo
-        shapes = Shapes(repo, R.shapes, R.record_classes)
+        shapes = Shapes(repo, R.shapes, R.record_classes, abstract=R.abstract)
         ctx = Ctx(repo, shapes, R.contracts, R.stubs)
         ctx.assumed = set()
         ctx.spec_funcs = R.spec_funcs
